@@ -553,7 +553,9 @@ def judgeC06 (st : St) (pre : Hub) (op : Op) (impl : ImplOut) : String :=
       if got != ["error(no_such_session)"] then s!"violated:resume-not-refused:{joinWith "," got}" else
       (match os with
        | some s =>
-         if (digestFind impl.digest "rm").any (fun t => t[3]? == some s!"s{s}") then s!"violated:ended-session-still-in-room:s{s}" else "ok"
+         -- (a live virtual session is refused too — it cannot be resumed — but has not ended)
+         if (pre.sess s).isNone && (digestFind impl.digest "rm").any (fun t => t[3]? == some s!"s{s}")
+         then s!"violated:ended-session-still-in-room:s{s}" else "ok"
        | none => "ok")
     | some (s, x) =>
       if !(got.any (fun m => hasPrefix s!"hello(s{s}," m)) then s!"violated:resume-refused-or-other-session:{joinWith "," got}" else
